@@ -133,6 +133,10 @@ func checkWatchers(c *Ctx, P string, all []world.Ev, requireComplete bool) {
 func checkC05(c *Ctx) {
 	all := expectedEvents(c)
 	checkWatchers(c, "C05", all, !c.W.Stuck)
+	if c.W.Stuck {
+		// a watch (or write) request that never returns: the client gets neither a stream nor a refusal
+		c.Out.violate("C05", "request-never-returned", "request-never-returned", "client requests did not finish: %s; tasks: %v", c.W.StuckWhy, stuckTasks(c.W))
+	}
 	// non-triviality: a watcher registered while writes were in flight and received events
 	for _, wa := range c.W.Watchers {
 		if len(wa.Events) == 0 || wa.Client == -2 {
@@ -213,9 +217,28 @@ func genC05Takeover(r *rt.Rand) *world.Scenario {
 	return sc
 }
 
+// genC05DeepReplay: a watch from far back in a large event cache: tens of thousands of cached events are
+// replayed into the watch's result channel (100 slots) before anyone reads it. Long, therefore rare.
+func genC05DeepReplay(r *rt.Rand) *world.Scenario {
+	sc := &world.Scenario{Prefix: prefix, InitRev: pickInitRev(r), Seed: r.Uint64(), Engine: "memkv", Class: "replay-of-a-deep-event-cache", Stick: 0.9}
+	sc.Inactive = []string{"seq.commit", "seq.committed", "seq.cache", "seq.bcast", "seq.sent", "kv.get", "kv.get.ret", "kv.commit", "kv.commit.ret", "kv.parts", "hub.recv", "client.next"}
+	n := int64(30001 + r.Intn(3000))
+	sc.Clients = []world.Client{{Ops: []world.Op{
+		{K: "burst", Key: prefix + "/a", Val: "d", Limit: n},
+		{K: "waitcommitted"},
+		{K: "watch", Key: prefix + "/", Rev: world.Rev{M: "init", N: int64(1 + r.Intn(50))}, W: 1, Consume: "eager"},
+		{K: "burst", Key: prefix + "/b", Val: "e", Limit: int64(1 + r.Intn(20)), W: 1},
+	}}}
+	sc.MaxSteps = 3000000
+	return sc
+}
+
 func genC05(r *rt.Rand, tier string, idx int) *world.Scenario {
 	if idx%40 == 39 {
 		return genC05Overflow(r)
+	}
+	if idx%800 == 41 {
+		return genC05DeepReplay(r)
 	}
 	if idx%10 == 7 {
 		return genC05Takeover(r)
